@@ -192,7 +192,7 @@ def purity_case(res: Result, spec, idx):
     """Pure API on machines WITH timers/services: nothing may run or start."""
     from xstate_statemachine import initial_transition
     from xstate_statemachine.helpers import transition as pure_transition
-    P = gen.profile("full", p_after=0.4, p_invoke=0.4)
+    P = gen.profile("full", p_after=0.4, p_invoke=0.4, p_effects=0.5, p_push_fx=0.35)
     case = gen.gen_case(rng_for(spec["seed"], ID, spec["chunk"], idx, "pcase"), P)
     rec = observe.Rec()
     rng = rng_for(spec["seed"], ID, spec["chunk"], idx, "pev")
@@ -218,6 +218,15 @@ def purity_case(res: Result, spec, idx):
                 res.violation("C05:pure-mutates-input-snapshot",
                               "transition() changed the snapshot passed in", {"plan": case.plan},
                               case={"idx": idx, "purity": True})
+                break
+            # branching: the same event applied to the same snapshot again gives the same result
+            again, _ = pure_transition(machine, snap, dict(ev))
+            res.count("purity.reapplied")
+            if (set(again.configuration), again.context, again.status) != (
+                    set(nxt.configuration), nxt.context, nxt.status):
+                res.violation("C05:pure-result-depends-on-earlier-calls",
+                              "applying the same event to the same snapshot twice gave different results",
+                              {"plan": case.plan}, case={"idx": idx, "purity": True})
                 break
             snap = nxt
     except Exception as e:  # noqa: BLE001
